@@ -102,6 +102,20 @@ def r08_1_totality(ctx: Ctx, rule: str = "R08.1", scope: str = "all") -> None:
         "ranges over (wildcards and undocumented raise-only arms do not count)",
         expected_min=20 if scope != "all" else 70,
     )
+    if scope == "convert":
+        exprs, preds, conts = k.concrete(k.column_exprs), k.concrete(k.predicates), k.concrete(k.containers)
+        for relm, table in (
+            (IT_ENGINE, (("Engine.convert_column_expression", exprs), ("Engine.convert_column_container", conts), ("Engine.convert_predicate", preds))),
+            (SQL_ENGINE, (("Engine.convert_column_expression", exprs), ("Engine.convert_predicate", preds))),
+        ):
+            for fn, classes in table:
+                f = m.func(relm, fn)
+                check_dispatch(ctx, rule, f, [p for p in f.params if p != "self"][0], classes)
+        f = m.func(SQL_ENGINE, "Engine.convert_predicate")
+        check_dispatch(ctx, rule, f, "container", conts, label="sql/_engine.py:Engine.convert_predicate")
+        return
+    _ = (
+    )
     concrete_rel = [c for c in k.relation_kinds if not m.is_abstract(c)]
     unary_all = k.concrete(k.unary_ops)
     binary_all = k.concrete(k.binary_ops)
